@@ -78,6 +78,35 @@ def execute(case, monitors, iter_cap=400):
             info["iters"].append(inc.n_commits)
             if inc.rng.extremes_fired:
                 w.bump("fault.fired.rng.extreme", inc.rng.extremes_fired)
+        if kind == "resume_final" and info["completed"]:
+            # the run finished and left checkpoints; a new process resumes from the final (or the newest periodic) one,
+            # possibly asking for fewer effective samples than already collected (zero further iterations)
+            info["completed"] = False
+            ck = "/simfs/out/ps_final.state" if case.get("resume_which", "final") == "final" else latest_checkpoint(w.fs)
+            info["resume_from"] = ck
+            for m in w.monitors:
+                if hasattr(m, "on_phase"):
+                    m.on_phase(None, "resume")
+            with w.incarnation(rng_record=case.get("rng_record", 0)) as inc:
+                s = inc.new_sampler()
+                info["sampler"] = s
+                try:
+                    n2 = case.get("resume_n_total", n_total)
+                    s.run(n_total=n2, progress=False, resume_state_path=ck, save_every=save_every)
+                    info["completed"] = True
+                    info["resumed"] = True
+                    if inc.n_commits == 0:
+                        w.probe("resume_with_zero_further_iterations")
+                    for m in w.monitors:
+                        if hasattr(m, "on_run_end"):
+                            m.on_run_end(inc, s, n2, "resumed")
+                except SimHang:
+                    raise
+                except Exception as e:
+                    info["exc"] = f"{type(e).__name__}: {str(e)[:160]}"
+                    info["exc_type"] = type(e).__name__
+                    forget(e)
+                info["iters"].append(inc.n_commits)
         if kind == "crash_resume" and info["crashed"]:
             ck = latest_checkpoint(w.fs)
             info["resume_from"] = ck
